@@ -91,6 +91,10 @@ class Fn:
             return "(" + " && ".join(parts) + ")" if len(parts) > 1 else parts[0]
         if isinstance(e, ast.IfExp):
             return f"(if {self.expr(e.test)} then {self.expr(e.body)} else {self.expr(e.orelse)})"
+        if isinstance(e, ast.Subscript) and isinstance(e.value, ast.Name) and not isinstance(e.slice, (ast.Slice, ast.Tuple)):
+            # seq[k] for an index the surrounding code keeps non-negative (negative indices would wrap in Python: the
+            # callers of this translator only use it under a guard k >= 0 that is itself translated)
+            return f"(nth (Z.to_nat {self.expr(e.slice)}) {self.expr(e.value)} 0)"
         if isinstance(e, (ast.GeneratorExp, ast.ListComp)):
             # (elt for i in range(a, b, c))  ->  map (fun i => elt) (py_range a b c)
             if len(e.generators) != 1:
@@ -430,6 +434,60 @@ def tr_balance_pins(tree):
     return "Definition balance_span_pins : bool := true."
 
 
+def tr_multseq(tree):
+    """get_multiplier_sequence: the statements around the search loop are pinned, the loop itself
+    (`while p >= 0: if target % resn[p] == 0: pred[i] = p; mult[i] = target // resn[p]; break / else: p -= 1`)
+    is translated into a fuelled recursion returning (pred[i], mult[i]), (-1, -1) when the loop ends without a hit"""
+    f = find(tree, "get_multiplier_sequence")
+    if [a.arg for a in f.args.args] != ["resolutions", "bases"]:
+        raise Unsupported("signature of get_multiplier_sequence")
+    st = strip_doc(f.body)
+    if len(st) != 7:
+        raise Unsupported("get_multiplier_sequence: statement count")
+    pin(st[0], """
+        if bases is None:
+            bases = {min(resolutions)}
+        else:
+            bases = set(bases)
+    """)
+    pin(st[1], "resn = np.array(sorted(bases.union(resolutions)))")
+    pin(st[2], "pred = -np.ones(len(resn), dtype=int)")
+    pin(st[3], "mult = -np.ones(len(resn), dtype=int)")
+    loop = st[4]
+    if not (isinstance(loop, ast.For) and ast.unparse(loop.target) == "(i, target)"
+            and ast.unparse(loop.iter) == "list(enumerate(resn))[::-1]" and not loop.orelse and len(loop.body) == 2):
+        raise Unsupported("get_multiplier_sequence: outer loop shape")
+    init, wh = loop.body
+    if not (isinstance(init, ast.Assign) and ast.unparse(init.targets[0]) == "p"):
+        raise Unsupported("get_multiplier_sequence: p initialisation")
+    if not (isinstance(wh, ast.While) and not wh.orelse and len(wh.body) == 1 and isinstance(wh.body[0], ast.If)):
+        raise Unsupported("get_multiplier_sequence: while shape")
+    iff = wh.body[0]
+    hit, miss = iff.body, iff.orelse
+    if not (len(hit) == 3 and isinstance(hit[2], ast.Break) and isinstance(hit[0], ast.Assign) and isinstance(hit[1], ast.Assign)
+            and ast.unparse(hit[0].targets[0]) == "pred[i]" and ast.unparse(hit[1].targets[0]) == "mult[i]"):
+        raise Unsupported("get_multiplier_sequence: hit branch")
+    if not (len(miss) == 1 and isinstance(miss[0], ast.AugAssign) and ast.unparse(miss[0].target) == "p"
+            and isinstance(miss[0].op, ast.Sub)):
+        raise Unsupported("get_multiplier_sequence: miss branch")
+    fn = Fn(may_raise=False)
+    wtest, itest = fn.expr(wh.test), fn.expr(iff.test)
+    e_pred, e_mult = fn.expr(hit[0].value), fn.expr(hit[1].value)
+    step = f"(p - {fn.expr(miss[0].value)})"
+    pin(st[5], """
+        for i, p in enumerate(pred):
+            if p == -1 and resn[i] not in bases:
+                raise ValueError(f'Resolution {resn[i]} cannot be derived from the base resolutions: {bases}.')
+    """)
+    pin(st[6], "return (resn, pred, mult)")
+    return ("Fixpoint multseq_scan (fuel : nat) (resn : list Z) (target p : Z) : Z * Z :=\n"
+            "  match fuel with\n  | O => (-1, -1)\n"
+            f"  | S fuel => if {wtest} then (if {itest} then ({e_pred}, {e_mult}) else multseq_scan fuel resn target {step}) else (-1, -1)\n"
+            "  end.\n"
+            f"Definition multseq_start (i : Z) : Z := {fn.expr(init.value)}.\n"
+            "Definition multseq_source_pins : bool := true.")
+
+
 ITEMS = [
     ("core/_rangequery.py", "comes_before", lambda t: tr_cmp(t, "_comes_before", "comes_before")),
     ("core/_rangequery.py", "contains", lambda t: tr_cmp(t, "_contains", "contains")),
@@ -440,6 +498,7 @@ ITEMS = [
     ("core/_selectors.py", "process_slice", tr_process_slice),
     ("util.py", "partition", tr_partition),
     ("_balance.py", "balance_span_pins", tr_balance_pins),
+    ("_reduce.py", "multseq_scan", tr_multseq),
 ]
 
 
